@@ -17,7 +17,7 @@ import sys
 import time
 
 from .. import bounded, common, spec
-from ..common import PROVED, REFUTED, Report, res, run_pool
+from ..common import PROVED, REFUTED, UNDECIDED, Report, res, run_pool
 from . import c04
 
 
@@ -87,6 +87,112 @@ def job_visit(a):
                 fail = fail or dict(expression=str(e), assignment=dict(zip(names, bounded.row_bits(r, 4))), polynomial_value=v, expected=(want >> r) & 1)
                 break
     return [dict(name="vchunk", status="x", strength="aux", backend="polynomial", secs=0, count=n, raised=raised, fail=fail, total=len(uniq))]
+
+
+def induct_patterns():
+    out = ["h0", "true", "false", "Not(h0)"]
+    for op in ("And", "Xor", "Or"):
+        for ar in (2, 3, 4, 5):
+            out.append(f"{op}({', '.join('h%d' % i for i in range(ar))})")
+        out += [f"{op}(h0, Not(h1))", f"{op}(Not(h0), h1, h2)", f"{op}(And(h0, h1), Or(h2, h3))", f"{op}(Xor(h0, h1), h2)"]
+    out += ["Not(And(h0, h1))", "Not(Xor(h0, h1, h2))"]
+    return out
+
+
+def job_induct(mode):
+    """STRUCTURAL-INDUCTION STEP of SympyToBQM.visit, discharged with pyvc + z3: the real method runs on a top-level node whose children are
+    arbitrary sub-trees (pyvc.Hole) or symbols; every RECURSIVE self.visit(x) is replaced by its contract - it returns a fresh binary variable
+    whose value is assumed to be the truth value of x - and the obligation is: the polynomial returned (PyQUBO stub semantics, A6) evaluates to
+    1 exactly where the node is true, 0 elsewhere, for ALL values of the sub-terms.  With the base cases (symbol, constants) this is
+    'polynomial = indicator' for trees of every depth.  A node kind the translator rejects (Or with more than two arguments) must raise."""
+    import sympy
+    import z3
+    from sympy.logic import boolalg
+    from qlasskit.bqm import SympyToBQM
+    from .. import pyvc
+    pq = use_stub()
+    ns = dict(And=boolalg.And, Or=boolalg.Or, Not=boolalg.Not, Xor=boolalg.Xor, true=sympy.true, false=sympy.false)
+    for i in range(5):
+        ns[f"h{i}"] = sympy.Symbol(f"s{i}") if mode == "symbol" else pyvc.Hole(sympy.Symbol(f"k{i}"))
+    out = []
+
+    def poly_z3(pl):
+        pl = pq.Poly.of(pl)
+        tot = z3.IntVal(0)
+        for mono, coef in pl.terms.items():
+            cond = z3.And(*[z3.Bool(lbl) for lbl in sorted(mono)]) if mono else z3.BoolVal(True)
+            tot = tot + z3.If(cond, z3.IntVal(int(coef)), z3.IntVal(0))
+        return tot
+    for src in induct_patterns():
+        e = eval(src, {}, dict(ns))
+        name = f"C18.SympyToBQM.visit.induction-step[{src}; sub-terms: {'symbols' if mode == 'symbol' else 'arbitrary trees'}]"
+        base = dict(strength="proved-class", backend="z3", function="qlasskit.bqm.SympyToBQM.visit")
+        if str(e) != src.replace("true", "True").replace("false", "False") and type(e).__name__ not in src[:4]:
+            continue          # sympy evaluated the pattern into another kind of node
+        eng = pyvc.Engine(modular=True)
+        eng.opaque_symbols = False
+        state = dict(top=False, k=0)
+
+        def visit_contract(vc, f, args, kwargs):
+            if not state["top"]:
+                # the call under verification itself: run the real (instrumented) body
+                state["top"] = True
+                return eng.instr(f.__func__)(f.__self__, *args)
+            state["k"] += 1
+            lbl = f"sub{state['k']}"
+            vc.assumed.append(z3.Bool(lbl) == pyvc.den(args[0]))
+            return pq.Binary(lbl)
+        eng.contracts[SympyToBQM.visit] = visit_contract
+        syms = sorted({str(x) for x in e.free_symbols}) if mode == "symbol" else []
+        a_vars = {n: pq.Binary(n) for n in syms}
+
+        def mk(vc):
+            state.update(top=False, k=0)
+            return (SympyToBQM(a_vars).visit, [e], {})
+        try:
+            paths = eng.explore(mk)
+        except pyvc.Unsupported as ex:
+            out.append(res(name, UNDECIDED, detail=f"Unsupported: {ex}", **base))
+            continue
+        wide_or = isinstance(e, boolalg.Or) and len(e.args) > 2
+        verdict = None
+        for p_ in paths:
+            if p_.kind != "return":
+                if wide_or:
+                    verdict = verdict or res(name, PROVED, note="rejected (Or of more than two arguments), as allowed", outcome="rejected", **base)
+                else:
+                    verdict = res(name, REFUTED, replayed=False, detail=f"raises {type(p_.value).__name__}: {p_.value}"[:200], solver_output="path raises", **base)
+                continue
+            try:
+                got = poly_z3(p_.value)
+            except Exception as ex:  # noqa
+                verdict = res(name, REFUTED, replayed=False, detail=f"result is not a polynomial: {ex}"[:200], solver_output="n/a", **base)
+                continue
+            goal = got == z3.If(pyvc.sympy_to_z3(e), z3.IntVal(1), z3.IntVal(0))
+            st, model, secs, backend = pyvc.solve(p_.hyps(), goal, 10000)
+            if st == PROVED:
+                verdict = verdict or res(name, PROVED, **base)
+            elif st == REFUTED:
+                # replay on the real recursive method with plain symbols, all assignments
+                n = 5
+                syms5 = [sympy.Symbol(f"s{i}") for i in range(n)]
+                e2 = eval(src, {}, {**ns, **{f"h{i}": syms5[i] for i in range(n)}})
+                pl = pq.Poly.of(SympyToBQM({f"s{i}": pq.Binary(f"s{i}") for i in range(n)}).visit(e2))
+                rp = None
+                for r in range(1 << n):
+                    smp = {f"s{i}": (r >> i) & 1 for i in range(n)}
+                    want = 1 if bool(e2.xreplace({syms5[i]: bool(smp[f"s{i}"]) for i in range(n)})) else 0
+                    if pl.energy(smp) != want:
+                        rp = dict(expression=str(e2), assignment=smp, polynomial_value=pl.energy(smp), expected=want, call="SympyToBQM(a_vars).visit(expression) against the PyQUBO stub")
+                        break
+                verdict = res(name, REFUTED, replayed=rp is not None, replay=rp, solver_output=str(model)[:300], **base) if rp else \
+                    res(name, UNDECIDED, detail="counter-model does not replay on the real recursive method", **base)
+            else:
+                verdict = res(name, UNDECIDED, detail="solver: undecided", **base)
+        if verdict is None:
+            verdict = res(name, UNDECIDED, detail="no path", **base)
+        out.append(verdict)
+    return out
 
 
 PROGRAMS = [
@@ -214,6 +320,7 @@ def run(tier, only=None):
         for fmt in ("bqm", "ising", "qubo", "pq_model"):
             jobs.append((job_tobqm, (i, fmt)))
     jobs.append((job_misc, None))
+    jobs += [(job_induct, "symbol"), (job_induct, "hole")]
     rs = run_pool(_dispatch, jobs)
     cnt = sum(r["count"] for r in rs if r.get("name") == "vchunk")
     raised = sum(r["raised"] for r in rs if r.get("name") == "vchunk")
